@@ -35,9 +35,17 @@ type Job struct {
 	Env     []string
 	NeedLlgo bool // build llgo from the working tree first and export VERIF_LLGO
 	ThoroughOnly bool
+	Lift     []LiftFile    // kind "lift": runtime source files copied from the working tree into the stand-in module
 	Prepare  string        // test run once per package before the shards (builds shared artefacts into $VERIF_SHARED)
 	Fuzz     string        // native fuzz target (thorough only)
 	FuzzTime time.Duration
+}
+
+// LiftFile names a source file of the repository that is copied verbatim (optionally without its
+// //go:linkname lines and build constraint) into the scratch module built from /verif/standins.
+type LiftFile struct {
+	Src, Dst     string
+	DropLinkname bool
 }
 
 type Prop struct {
@@ -439,6 +447,37 @@ func buildTest(job *Job, jw string, env []string) (string, string) {
 	case "harness":
 		args := []string{"test", "-c", "-vet=off", "-o", bin, job.Pkg}
 		out, code, to := run(verifRoot, env, 15*time.Minute, "go", args...)
+		if code != 0 || to {
+			return "", out
+		}
+	case "lift":
+		mod := filepath.Join(jw, "mod")
+		if out, code, _ := run(verifRoot, env, time.Minute, "cp", "-r", filepath.Join(verifRoot, "standins"), mod); code != 0 {
+			return "", out
+		}
+		for _, lf := range job.Lift {
+			b, err := os.ReadFile(filepath.Join(repo, lf.Src))
+			if err != nil {
+				return "", err.Error()
+			}
+			if lf.DropLinkname {
+				var keep []string
+				for _, ln := range strings.Split(string(b), "\n") {
+					if strings.HasPrefix(ln, "//go:linkname") || strings.HasPrefix(ln, "//go:build") {
+						continue
+					}
+					keep = append(keep, ln)
+				}
+				b = []byte(strings.Join(keep, "\n"))
+			}
+			os.MkdirAll(filepath.Dir(filepath.Join(mod, lf.Dst)), 0o755)
+			if err := os.WriteFile(filepath.Join(mod, lf.Dst), b, 0o644); err != nil {
+				return "", err.Error()
+			}
+		}
+		gm := "module github.com/goplus/llgo/runtime\n\ngo 1.24\n\nrequire pgregory.net/rapid v1.3.0\nrequire verifstat v0.0.0\nreplace verifstat => " + filepath.Join(verifRoot, "vstat") + "\n"
+		os.WriteFile(filepath.Join(mod, "go.mod"), []byte(gm), 0o644)
+		out, code, to := run(mod, env, 15*time.Minute, "go", "test", "-c", "-vet=off", "-o", bin, job.Pkg)
 		if code != 0 || to {
 			return "", out
 		}
